@@ -79,6 +79,8 @@ PROGRAMS = [
     ('layout-time expressions across zones', {'main.asm': '.memzone zz\nza: .byte 1, 2, 3\nza_end:\n.memzone zy\nzb: .fill za_end - za, $EE\n'
                                                           '.memzone GLOBAL\n nop\n.org 8 "zz"\n .byte 9\n.memzone zy\n.zerountil zb + 5\n'}, ()),
     ('alternatives of one kind', {'main.asm': 'p0: pick 5\n pick KC\n pick b\n pick p0 + 1\n pick x + 5\n pick x+KD\n nop\n'}, ()),
+    ('both quote characters and comments', {'main.asm': ' .cstr "it\'s"  ; don\'t "panic"\n .byte \'"\', 2  ; the quote character, isn\'t it\n'
+                                                        ' .byte "a;b", 3 ; \'x\' "y"\n nop\n'}, ()),
     ('several -D', {'main.asm': ' .byte LA, LB, LC\n#if LC >= 1\n nop\n#endif\n'}, ()),
     ('one name in several -D', {'main.asm': ' .byte LV\n#if LV >= 2\n nop\n#endif\n'}, ()),
 ]
@@ -91,7 +93,7 @@ FORMATS_B = ['listing', 'hex', 'intel_hex', 'minhex']
 def meta(tier):
     q = tier == 'quick'
     return {
-        'rule': 'part A: 13 programs (several include directories with unique, ambiguous, shadowing, nested, linked and missing files; registers; '
+        'rule': 'part A: 14 programs (several include directories with unique, ambiguous, shadowing, nested, linked and missing files; registers; '
                 'mnemonics that are prefixes of one another or contain a period; macros; symbols; zones; several -D definitions, also of one name; directives whose size or target is computed from labels of another zone) x 2 output formats; the default '
                 'schedule and every schedule with one (thorough: two) deviating choice point (all permutations for sets of <=4 elements, '
                 'reversal and every rotation above) must produce identical status, image and pretty print; the default schedule is '
